@@ -2,12 +2,17 @@ from common import Ctx, RULES, standard_unit_leg
 
 PID = "C15"
 COQ_FILES = ["Model/Base.v", "Model/Mem.v", "Gen/Regs.v", "Spec/X86Dwarf.v", "Model/Regs.v", "Proofs/MemProofs.v",
-             "Proofs/RegsProofs.v", "Gen/Mem.v", "Ties/MemTie.v", "Properties/C15.v"]
+             "Proofs/RegsProofs.v", "Gen/Mem.v", "Ties/MemTie.v", "Gen/Disasm.v", "Model/Disasm.v", "Proofs/DisasmProofs.v",
+             "Properties/C15.v"]
 RULES[PID] = ("e2e leg: a debuggee maps 8 pages and punches holes (munmap), PROT_NONE and read-only pages; seeded (address, length, data) triples, "
               "80% within +-28 bytes of a page edge, lengths 0..40, through Debugger::read_memory and the DAP write_bytes helper; before/after windows "
               "are taken from /proc/<pid>/mem byte by byte (None = unmapped) and the case is decided inside Coq against the model (exact) and the "
               "spec (read = bytes iff all mapped; write changes exactly [a,a+n)). Non-trivial: the window contains both mapped and unmapped bytes, or the "
-              "range is unaligned and crosses a word boundary; distinct by case text. Registers: set_register_value vs PTRACE_GETREGS (14 GPRs, boundary values).")
+              "range is unaligned and crosses a word boundary; distinct by case text. Registers: set_register_value vs PTRACE_GETREGS (14 GPRs, boundary values). "
+              "disasm leg: eight functions laid out with 2-byte alignment (several directly followed by the next one); breakpoints on random instruction starts, the "
+              "last instruction and the first address behind the function; Debugger::disasm() (one visit per function and session: the disassembler caches per range) and "
+              "DAP disassemble are compared with the harness's own capstone decoding of the ELF file's bytes; the verdict is computed in Coq by Model/Disasm.v over "
+              "(image, memory, patched addresses, outcome). Non-trivial: >= 2 patched addresses.")
 
 
 def run(tier, seed):
@@ -35,6 +40,16 @@ def run(tier, seed):
                             {"what": "the debuggee's own checksum of the region differs from /proc/<pid>/mem after the writes",
                              "program_sum": s.get("program_sum"), "expected": s.get("expected_sum")}, key="c15-e2e:program-view", found_input=True)
             ctx.notes.append("register checks: %s, failures: %d" % (s.get("register_checks"), len(s.get("register_failures") or [])))
+        nd = 60 if tier == "quick" else 900
+        d = standard_unit_leg(ctx, "c15-disasm", [seed, nd, ctx.cases_dir, ctx.scratch + "/d"],
+                              "disassembly (Debugger::disasm or DAP disassemble) showed something other than the program's original instructions, "
+                              "or panicked, with breakpoints set in / directly behind the function")
+        if d is not None and d.get("errors"):
+            ctx.violate("tie-broken", "c15-disasm", {"errors": d["errors"][:5]}, key="c15-disasm:errors", found_input=False)
+    ctx.refuted.append({"theorem": "C15_disasm_end_panic_refuted_old", "witness": "function [16,17), breakpoint at 17",
+                        "status": "describes the implementation before fix c4e56bb; the disasm leg replays it against the current code"})
+    ctx.refuted.append({"theorem": "C15_dap_disasm_raw_refuted_old", "witness": "a breakpoint on the first byte of the window",
+                        "status": "describes the implementation before fix 7fbf91e; the disasm leg replays it against the current code"})
     ctx.refuted.append({"theorem": "C15_read_unaligned_refuted", "witness": "m = 8 mapped bytes then a hole, a = 7, n = 1",
                         "status": "describes the implementation before fix f6b9bcc; the e2e leg replays it against the current code"})
     return ctx.finish(["PTRACE_PEEKDATA/POKEDATA move 8 bytes and fail with EIO unless all 8 are mapped; mappings are page-granular",
